@@ -3,7 +3,7 @@ EXTENDS IprScopes, Json
 CONSTANTS Depth, UseScopes, UseKinds, UseNames, UseTypes, Record
 VARIABLES hist
 vars == <<decls, ndecl, sclast, hist>>
-AllKinds == HeteroKinds \cup {"param", "enumerator", "base"}
+AllKinds == HeteroKinds \cup {"param", "enumerator", "base", "ehparam"}
 Init == ScInit /\ hist = <<>>
 Next == /\ ndecl < Depth
         /\ \E s \in UseScopes, k \in UseKinds, t \in AllTypes :
